@@ -1,0 +1,187 @@
+//go:build verif
+
+// Contracts for package q (comment-only; read by /verif/bin/gv, never compiled
+// into a normal build). See /verif/DESIGN.md.
+package q
+
+// ---------------------------------------------------------------------------
+// C15: the tokenizer and the recursive-descent parser never index outside the
+// token slice (one obligation stays undecided: the [1:len-1] slice of a string
+// token's value needs the language fact that a token matching ^".*"$ has at
+// least two bytes, and the patterns live in a table the engine cannot read).
+// The position of a token stream is never negative; a successful
+// Consume returns exactly one token per expected kind, which is what every
+// t[0] in the parser relies on.
+//@ func Tokens.Consume
+//@   props C15
+//@   safety
+//@   requires t != nil && t.Position >= 0
+//@   loop 1 invariant pos: t.Position >= 0
+//@   loop 1 invariant bound: rangeindex < len(expected)
+//@   loop 1 invariant count: implies(isnil(err), len(tokens) == rangeindex + 1)
+//@   ensures pos: t.Position >= 0
+//@   ensures count: implies(isnil(result1), len(result0) == len(expected))
+//@   assigns H.q.Tokens.Position, E.q.Token*, alloc
+//@ func Parser.consumeStatements
+//@   props C15
+//@   safety
+//@   requires p != nil && p.tokens != nil && p.tokens.Position >= 0
+//@   loop 1 invariant pos: p.tokens != nil && p.tokens.Position >= 0
+//@   ensures pos: p.tokens.Position >= 0
+//@   assigns H.q.Tokens.Position, E.*, M.*, H.q.*Expr*, H.q.Statement*, alloc
+//@ func Parser.consumeNextStatement
+//@   props C15
+//@   safety
+//@   requires p != nil && p.tokens != nil && p.tokens.Position >= 0
+//@   ensures pos: p.tokens.Position >= 0
+//@   assigns H.q.Tokens.Position, E.*, M.*, H.q.*Expr*, H.q.Statement*, alloc
+//@ func Parser.consumeAreOrIs
+//@   props C15
+//@   safety
+//@   requires p != nil && p.tokens != nil && p.tokens.Position >= 0
+//@   ensures pos: p.tokens.Position >= 0
+//@   assigns H.q.Tokens.Position, E.*, M.*, H.q.*Expr*, H.q.Statement*, alloc
+//@ func Parser.consumeStatement
+//@   props C15
+//@   safety
+//@   requires p != nil && p.tokens != nil && p.tokens.Position >= 0
+//@   ensures pos: p.tokens.Position >= 0
+//@   assigns H.q.Tokens.Position, E.*, M.*, H.q.*Expr*, H.q.Statement*, alloc
+//@ func Parser.consumeNamedStatement
+//@   props C15
+//@   safety
+//@   requires p != nil && p.tokens != nil && p.tokens.Position >= 0
+//@   ensures pos: p.tokens.Position >= 0
+//@   assigns H.q.Tokens.Position, E.*, M.*, H.q.*Expr*, H.q.Statement*, alloc
+//@ func Parser.consumeUnnamedStatement
+//@   props C15
+//@   safety
+//@   requires p != nil && p.tokens != nil && p.tokens.Position >= 0
+//@   ensures pos: p.tokens.Position >= 0
+//@   assigns H.q.Tokens.Position, E.*, M.*, H.q.*Expr*, H.q.Statement*, alloc
+//@ func Parser.consumeNextExpression
+//@   props C15
+//@   safety
+//@   requires p != nil && p.tokens != nil && p.tokens.Position >= 0
+//@   ensures pos: p.tokens.Position >= 0
+//@   assigns H.q.Tokens.Position, E.*, M.*, H.q.*Expr*, H.q.Statement*, alloc
+//@ func Parser.consumeExpressions
+//@   props C15
+//@   safety
+//@   requires p != nil && p.tokens != nil && p.tokens.Position >= 0
+//@   loop 1 invariant pos: p.tokens != nil && p.tokens.Position >= 0
+//@   ensures pos: p.tokens.Position >= 0
+//@   assigns H.q.Tokens.Position, E.*, M.*, H.q.*Expr*, H.q.Statement*, alloc
+//@ func Parser.consumeExpression
+//@   props C15
+//@   safety
+//@   requires p != nil && p.tokens != nil && p.tokens.Position >= 0
+//@   ensures pos: p.tokens.Position >= 0
+//@   assigns H.q.Tokens.Position, E.*, M.*, H.q.*Expr*, H.q.Statement*, alloc
+//@ func Parser.consumeConstant
+//@   props C15
+//@   safety
+//@   requires p != nil && p.tokens != nil && p.tokens.Position >= 0
+//@   ensures pos: p.tokens.Position >= 0
+//@   assigns H.q.Tokens.Position, E.*, M.*, H.q.*Expr*, H.q.Statement*, alloc
+//@ func Parser.consumeOperator
+//@   props C15
+//@   safety
+//@   requires p != nil && p.tokens != nil && p.tokens.Position >= 0
+//@   loop 1 invariant pos: p.tokens != nil && p.tokens.Position >= 0
+//@   ensures pos: p.tokens.Position >= 0
+//@   assigns H.q.Tokens.Position, E.*, M.*, H.q.*Expr*, H.q.Statement*, alloc
+//@ func Parser.consumeAccessor
+//@   props C15
+//@   safety
+//@   requires p != nil && p.tokens != nil && p.tokens.Position >= 0
+//@   ensures pos: p.tokens.Position >= 0
+//@   assigns H.q.Tokens.Position, E.*, M.*, H.q.*Expr*, H.q.Statement*, alloc
+//@ func Parser.consumeVariableOrFunction
+//@   props C15
+//@   safety
+//@   requires p != nil && p.tokens != nil && p.tokens.Position >= 0
+//@   ensures pos: p.tokens.Position >= 0
+//@   assigns H.q.Tokens.Position, E.*, M.*, H.q.*Expr*, H.q.Statement*, alloc
+//@ func Parser.consumeFunctionArgs
+//@   props C15
+//@   safety
+//@   requires p != nil && p.tokens != nil && p.tokens.Position >= 0
+//@   loop 1 invariant pos: p.tokens != nil && p.tokens.Position >= 0
+//@   ensures pos: p.tokens.Position >= 0
+//@   assigns H.q.Tokens.Position, E.*, M.*, H.q.*Expr*, H.q.Statement*, alloc
+//@ func Parser.consumeQuestionMark
+//@   props C15
+//@   safety
+//@   requires p != nil && p.tokens != nil && p.tokens.Position >= 0
+//@   ensures pos: p.tokens.Position >= 0
+//@   assigns H.q.Tokens.Position, E.*, M.*, H.q.*Expr*, H.q.Statement*, alloc
+//@ func Parser.consumeObject
+//@   props C15
+//@   safety
+//@   requires p != nil && p.tokens != nil && p.tokens.Position >= 0
+//@   ensures pos: p.tokens.Position >= 0
+//@   assigns H.q.Tokens.Position, E.*, M.*, H.q.*Expr*, H.q.Statement*, alloc
+//@ func Parser.consumeKeyValue
+//@   props C15
+//@   safety
+//@   requires p != nil && p.tokens != nil && p.tokens.Position >= 0
+//@   ensures pos: p.tokens.Position >= 0
+//@   assigns H.q.Tokens.Position, E.*, M.*, H.q.*Expr*, H.q.Statement*, alloc
+//@ func Parser.consumeObjectWithoutKeys
+//@   props C15
+//@   safety
+//@   requires p != nil && p.tokens != nil && p.tokens.Position >= 0
+//@   loop 1 invariant pos: p.tokens != nil && p.tokens.Position >= 0
+//@   ensures pos: p.tokens.Position >= 0
+//@   assigns H.q.Tokens.Position, E.*, M.*, H.q.*Expr*, H.q.Statement*, alloc
+//@ func Parser.consumeObjectWithKeys
+//@   props C15
+//@   safety
+//@   requires p != nil && p.tokens != nil && p.tokens.Position >= 0
+//@   ensures pos: p.tokens.Position >= 0
+//@   assigns H.q.Tokens.Position, E.*, M.*, H.q.*Expr*, H.q.Statement*, alloc
+//@ func Parser.consumeKeyValues
+//@   props C15
+//@   safety
+//@   requires p != nil && p.tokens != nil && p.tokens.Position >= 0
+//@   loop 1 invariant pos: p.tokens != nil && p.tokens.Position >= 0
+//@   ensures pos: p.tokens.Position >= 0
+//@   assigns H.q.Tokens.Position, E.*, M.*, H.q.*Expr*, H.q.Statement*, alloc
+//@ func Parser.consumeNextKeyValue
+//@   props C15
+//@   safety
+//@   requires p != nil && p.tokens != nil && p.tokens.Position >= 0
+//@   ensures pos: p.tokens.Position >= 0
+//@   assigns H.q.Tokens.Position, E.*, M.*, H.q.*Expr*, H.q.Statement*, alloc
+//@ func Parser.ParseString
+//@   props C15
+//@   safety
+//@   requires p != nil
+//@ func Tokenizer.TokenizeString
+//@   props C15
+//@   safety
+//@   loop 1 invariant i: i >= 0
+//@   loop 2 invariant i: i >= 0 && i < len(s)
+//@   loop 3 invariant i: i >= 0 && i < len(s)
+//@   ensures result != nil && result.Position == 0
+//@   assigns E.*, alloc
+
+// ---------------------------------------------------------------------------
+// C15: the evaluator. Engine.Evaluate documents that at least one document is
+// given. The expression evaluators are swept against the documented panic
+// conditions of package reflect (contracts/reflect.gvc).
+//@ func Engine.Evaluate
+//@   props C15
+//@   safety
+//@   requires e != nil && len(documents) >= 1
+//@   loop 1 invariant some: len(e.Statements) >= rangeindex + 1
+//@ func Statement.Evaluate
+//@   props C15
+//@   safety
+//@   requires v != nil
+//@   assigns everything
+//@ iface Expression.Evaluate(engine, input, args)
+//@   assigns everything
+//@ sweep C15: AccessorExpr.Evaluate, FirstExpr.Evaluate, LastExpr.Evaluate, LengthExpr.Evaluate, QuestionMarkExpr.Evaluate, CombineExpr.Evaluate, OnlyExpr.Evaluate
+//@ sweep C15: Engine.StatementByVariableName, VariableExpr.Evaluate, CallExpr.Evaluate, ConstantExpr.Evaluate, ValueExpr.Evaluate
